@@ -58,7 +58,7 @@ TStep == /\ l <= Len(Trace)
          /\ l' = l + 1
          /\ LET fl == Failed(Trace[l]) IN
               /\ bad' = IF fl = {} THEN bad ELSE bad \cup {l}
-              /\ (fl = {} \/ PrintT(<<"VERIF-WHY", l, fl>>))
+              /\ (IF fl = {} THEN TRUE ELSE PrintT(<<"VERIF-WHY", l, fl>>))
 TReport == /\ l = Len(Trace) + 1
            /\ PrintT(<<"VERIF-CONSUMED", l - 1>>)
            /\ PrintT(<<"VERIF-REJECTED", bad>>)
